@@ -66,7 +66,21 @@ def _params(rng, n):
 def judge(case, impl, drv):
     if not isinstance(impl, dict) or "nm" not in impl:
         return False, False
-    p_ok = impl["nm"] == impl["light"] and impl["nm_obs"] == impl["light_obs"]
+    # a persistently vetoed restore recurses until Python's recursion limit (finding K4): where exactly the
+    # RecursionError strikes depends on the frame count of each class, so log and state of that call are not
+    # comparable - only that both flavours end in RecursionError; nothing after it is compared
+    p_ok = True
+    cut = False
+    for a, b in zip(impl["nm"], impl["light"]):
+        if a["res"] == "RecursionError" or b["res"] == "RecursionError":
+            p_ok = p_ok and a["res"] == b["res"]
+            cut = True
+            break
+        if a != b:
+            p_ok = False
+            break
+    if not cut:
+        p_ok = p_ok and len(impl["nm"]) == len(impl["light"]) and impl["nm_obs"] == impl["light_obs"]
     m = drv["mirror"]
 
     def agrees(rs, ms):
